@@ -50,6 +50,12 @@ SOURCES = [
     "__all__ = ['handler', 'value_one', 'alpha_name', 'outer_function', 'Thing', 'use_them', 'other_function', 'function_name', 'first_local', 'keep_local']\n"
     "def handler(): pass\nvalue_one = alpha_name = 1\ndef outer_function(): pass\nclass Thing: pass\ndef use_them(): pass\ndef other_function(): pass\ndef function_name(first_local, keep_local): return first_local, keep_local\n",
     "def public_name(argument_one):\n    return argument_one, argument_one\ndef other_function(public_name_again):\n    return public_name(public_name_again), public_name(public_name_again)\nvalue_two = other_function(1)\nprint(value_two, value_two)\n",
+    # annotation-rich: sensitive classes (dataclass / NamedTuple / TypedDict) nested in each other and next to plain classes
+    "import dataclasses\nimport typing\n@dataclasses.dataclass\nclass OuterRecord:\n    outer_field: int = 1\n    @dataclasses.dataclass\n    class InnerRecord:\n        inner_field: int = 2\n"
+    "        class DeepTuple(typing.NamedTuple):\n            deep_field: int\n    class PlainInside:\n        plain_attr: int = 3\n        bare_attr: str\n    other_field: str = 'text'\n"
+    "class Config:\n    retries: int = 3\n    timeout: float\n    def method(self, argument_one: int = 0) -> int:\n        local_annotated: int = argument_one\n        return local_annotated\n",
+    "import typing\nclass Row(typing.NamedTuple):\n    first_column: int\n    class Options(typing.TypedDict):\n        option_key: str\n    second_column: str = 'x'\n"
+    "class After:\n    class_level: int = 0\n    unassigned: int\nmodule_level: int = 5\ndef function_name(parameter_one: int, *args: str, **kwargs: bytes) -> None:\n    inner_value: int = parameter_one\n    return None\n",
 ]
 BYTES_SOURCES = [b"# -*- coding: latin-1 -*-\nname_value = '\xe9\xe8'\nprint(name_value, name_value)\n", SOURCES[0].encode(), SOURCES[6].encode()]
 
@@ -91,6 +97,8 @@ def outcome(fn):
 
 
 _CTX = [None]
+# the values the three shared option objects were created with (api.ANN order); the reference request uses these, not the live object
+SHARED_RAO_VALUES = [(True, False, True, False), (True, True, True, True), (False, False, False, True)]
 
 
 class State(object):
@@ -99,8 +107,12 @@ class State(object):
     def __init__(self):
         self.shared_pl = ['keep_local']
         self.shared_pg = ['keep_global']
-        self.shared_rao = RemoveAnnotationsOptions(remove_variable_annotations=True, remove_return_annotations=False,
-                                                  remove_argument_annotations=True, remove_class_attribute_annotations=False)
+        self.shared_raos = [RemoveAnnotationsOptions(remove_variable_annotations=True, remove_return_annotations=False,
+                                                    remove_argument_annotations=True, remove_class_attribute_annotations=False),
+                            RemoveAnnotationsOptions(remove_variable_annotations=True, remove_return_annotations=True,
+                                                    remove_argument_annotations=True, remove_class_attribute_annotations=True),
+                            RemoveAnnotationsOptions(remove_variable_annotations=False, remove_return_annotations=False,
+                                                    remove_argument_annotations=False, remove_class_attribute_annotations=True)]
 
 
 def exec_step(state, step):
@@ -117,9 +129,10 @@ def exec_step(state, step):
         pg_obj = state.shared_pg if step['share_pg'] else list(step['pg'])
         kw = api.kwargs(opts)
         if step['share_rao']:
-            kw['remove_annotations'] = state.shared_rao
-            opts = dict(opts, remove_variable_annotations=True, remove_return_annotations=False, remove_argument_annotations=True,
-                        remove_class_attribute_annotations=False)
+            # one of three caller-owned option objects (True in older replay files means the first)
+            rao = state.shared_raos[(int(step['share_rao']) - 1) % len(state.shared_raos)]
+            kw['remove_annotations'] = rao
+            opts = dict(opts, **dict(zip(api.ANN, SHARED_RAO_VALUES[(int(step['share_rao']) - 1) % len(state.shared_raos)])))
         before = (copy.deepcopy(pl_obj), copy.deepcopy(pg_obj), rao_tuple(kw['remove_annotations']), src)
         got = outcome(lambda: python_minifier.minify(src, preserve_locals=pl_obj, preserve_globals=pg_obj, **kw))
         after = (pl_obj, pg_obj, rao_tuple(kw['remove_annotations']), src)
@@ -170,6 +183,8 @@ def make_machine():
 
         def do(self, step):
             ctx = _CTX[0]
+            if ctx.shrink_expired():
+                return
             got, req, before, after, shared = exec_step(self.state, step)
             self.steps.append(step)
             if shared:
@@ -184,21 +199,21 @@ def make_machine():
         @rule(i=st.integers(0, len(SOURCES) - 1), opts=api.option_sets(), share_pl=st.booleans(), share_pg=st.booleans(),
               pl=st.lists(st.sampled_from(['first_local', 'argument_one', 'keep_local']), max_size=2),
               pg=st.lists(st.sampled_from(['value_one', 'other_function', 'keep_global', 'alpha_name']), max_size=2),
-              share_rao=st.booleans(), use_bytes=st.booleans())
+              share_rao=st.integers(0, 3), use_bytes=st.booleans())
         def call_minify(self, i, opts, share_pl, share_pg, pl, pg, share_rao, use_bytes):
             self.do({'rule': 'minify', 'i': i, 'opts': opts, 'share_pl': share_pl, 'share_pg': share_pg, 'pl': pl, 'pg': pg,
                      'share_rao': share_rao, 'use_bytes': use_bytes})
 
         @rule(prog=progs.programs(profile='shape', level=(3, 12), size=6), opts=api.option_sets(), exports=st.lists(st.sampled_from(progs.LONG_NAMES + ['A', 'B', 'x']), max_size=3),
-              share_pg=st.booleans())
-        def call_minify_generated(self, prog, opts, exports, share_pg):
+              share_pg=st.booleans(), share_rao=st.integers(0, 3))
+        def call_minify_generated(self, prog, opts, exports, share_pg, share_rao):
             # generated programs share one small name pool, so names remembered from an earlier call would bite in a later one
             src = prog.source
             if exports:
                 src = '__all__ = %r\n' % (exports,) + src
                 if api.compiles(src) is not None:
                     src = prog.source
-            self.do({'rule': 'minify', 'i': -1, 'source': src, 'opts': opts, 'share_pl': False, 'share_pg': share_pg, 'pl': [], 'pg': [], 'share_rao': False, 'use_bytes': False})
+            self.do({'rule': 'minify', 'i': -1, 'source': src, 'opts': opts, 'share_pl': False, 'share_pg': share_pg, 'pl': [], 'pg': [], 'share_rao': share_rao, 'use_bytes': False})
 
         @rule(i=st.integers(0, len(SOURCES) - 1))
         def call_defaults(self, i):
@@ -218,6 +233,8 @@ def make_machine():
 
         def teardown(self):
             ctx = _CTX[0]
+            if ctx.shrink_expired():
+                return
             nt = len(self.steps) >= 3 and (self.shared_uses >= 2 or self.after_failure >= 1)
             brief = ['%s src=%d%s' % (s['rule'], s['i'], ' shared' if (s.get('share_pl') or s.get('share_pg') or s.get('share_rao')) else '') for s in self.steps]
             ctx.case(sha(json.dumps(self.steps, sort_keys=True)), nt,
